@@ -39,7 +39,7 @@ def project(r):
     return ('OK', [(lang, t, p) for lang, t, p in universe.texts_of(r)])
 
 
-def run(tier, seed, build, res):
+def _run_own(tier, seed, build, res):
     rng = random.Random(seed)
     envs = equ_envs() + ['\\[', '$$']
     res.rule = ('equations with 1-3 rows x 1-3 sections x %d part shapes, in the '
@@ -65,6 +65,9 @@ def run(tier, seed, build, res):
         lang = rng.choice(['en', 'de', 'ru'])
         seqs = rng.random() < 0.25
         body = ' \\\\\n  '.join(' & '.join(PARTS[i] for i in row) for row in shape)
+        # an empty last row or section: the equation ends with \\\\ or &
+        trail = rng.choice(['', '', '', ' \\\\', ' \\\\[1ex]', ' &', ' &&'])
+        body += trail
         if env == '\\[':
             eq = '\\[ ' + body + ' \\]'
         elif env == '$$':
@@ -74,13 +77,13 @@ def run(tier, seed, build, res):
         pre = 'Before we see\n'
         tex = pre + eq + '\nAfter that.\n'
         c = parsecase.T2T(tex, lang=lang, pack='*', seqs=seqs, files={})
-        meta[(tex, lang, seqs)] = (shape, len(pre), len(pre) + len(eq), lang, seqs)
+        meta[(tex, lang, seqs)] = (shape, len(pre), len(pre) + len(eq), lang, seqs, trail)
         cases.append((c, None, 'equations'))
 
     def oracle(c, d, kind, im):
         if im[0] != 'OK' or (c.latex, c.lang, c.seqs) not in meta:
             return None
-        shape, a0, b0, lang, seqs = meta[(c.latex, c.lang, c.seqs)]
+        shape, a0, b0, lang, seqs, trail = meta[(c.latex, c.lang, c.seqs)]
         lc = settings(lang)
         txt, pos = im[1][1], im[1][2]
         i0 = txt.find('Before we see')
@@ -112,6 +115,8 @@ def run(tier, seed, build, res):
                 return ('simple mode: %r, expected one placeholder of the display '
                         'collection followed by %r' % (mid.strip(), final or ''))
             return None
+        if trail:
+            return None     # row structure with an empty last row: model only
         lines = [l for l in mid.strip('\n').split('\n')]
         if len([l for l in lines if l.strip()]) > len(shape) or \
                 mid.strip('\n').count('\n') != len(shape) - 1:
@@ -155,6 +160,12 @@ def switch_stream(rng, res):
                     % (word, allt))
         return None
     universe.run(cases, res, 'switch', project, oracle)
+
+
+def run(tier, seed, build, res):
+    _run_own(tier, seed, build, res)
+    # snippets of /repo's own tests and their mutations (harness/seeds.py)
+    universe.run_seeds(random.Random(seed + 7), res, project, tier, share=0.6)
 
 
 def replay(payload, build, res):
